@@ -214,26 +214,27 @@ class BuildError(Exception):
     pass
 
 
-def model_build(timeout=900):
-    exe = os.path.join(ROOT, "extract", "_build", "model.exe")
+def model_build(name="main", timeout=900):
+    """build extract/_build/<name>.exe from extract/<name>/{Extract.v,driver.ml}"""
+    exe = os.path.join(ROOT, "extract", "_build", "%s.exe" % name)
     coq_makefile()
     # make sure every Model/Spec file needed by the extraction is compiled
-    deps = coq_deps_of_extract()
+    deps = coq_deps_of_extract(name)
     rc, out = sh("make -j%d %s" % (NCPU, " ".join(d[:-2] + ".vo" for d in deps)), cwd=COQ, timeout=timeout)
     if rc != 0:
         raise BuildError("coq model build failed:\n" + out[-3000:])
     newest = max(os.path.getmtime(os.path.join(COQ, d[:-2] + ".vo")) for d in deps)
-    srcs = [os.path.join(ROOT, "extract", f) for f in ("Extract.v", "util.ml", "driver.ml", "build.sh")]
+    srcs = [os.path.join(ROOT, "extract", f) for f in (name + "/Extract.v", "util.ml", name + "/driver.ml", "build.sh")]
     newest = max([newest] + [os.path.getmtime(s) for s in srcs])
     if not os.path.exists(exe) or os.path.getmtime(exe) < newest:
-        rc, out = sh("./build.sh", cwd=os.path.join(ROOT, "extract"), timeout=timeout)
+        rc, out = sh(["./build.sh", name], cwd=os.path.join(ROOT, "extract"), timeout=timeout)
         if rc != 0:
             raise BuildError("extraction build failed:\n" + out[-3000:])
     return exe
 
 
-def coq_deps_of_extract():
-    src = open(os.path.join(ROOT, "extract", "Extract.v")).read()
+def coq_deps_of_extract(name="main"):
+    src = open(os.path.join(ROOT, "extract", name, "Extract.v")).read()
     seen = []
     for m in re.finditer(r"SQV\.([A-Za-z0-9_]+)\.([A-Za-z0-9_]+)", strip_comments(src)):
         coq_deps("%s/%s.v" % (m.group(1), m.group(2)), seen)
@@ -388,11 +389,11 @@ class Ctx:
                 self.proof["obligations"], self.proof["theorems"], self.proof["wall_s"]))
         return self.proof["ok"]
 
-    def build(self, feat="base", model=True):
+    def build(self, feat="base", model=True, model_name="main"):
         self.log("building harness (%s)%s" % (feat, " and model" if model else ""))
         with ThreadPoolExecutor(max_workers=2) as ex:
             fh = ex.submit(harness_build, feat)
-            fm = ex.submit(model_build) if model else None
+            fm = ex.submit(model_build, model_name) if model else None
             self.harness = fh.result()
             self.model = fm.result() if fm else None
 
@@ -426,7 +427,7 @@ TRUSTED_BASE = [
 
 
 def standard_flow(ctx, feat, gen_cases, oracle=None, nontrivial=None, classify=None, describe=None,
-                  model=True, extra=None, rule="", regen=None, batch_oracle=None):
+                  model=True, extra=None, rule="", regen=None, batch_oracle=None, model_name="main"):
     """The common flow. gen_cases(ctx) -> list of case lines.
     oracle(case, impl_out) -> None if fine else a string describing the failure.
     classify(case, impl_out, failure) -> known-finding dict or None."""
@@ -435,7 +436,7 @@ def standard_flow(ctx, feat, gen_cases, oracle=None, nontrivial=None, classify=N
         if regen:
             regen(ctx)
         proof_ok = ctx.coq()
-        ctx.build(feat, model=True)
+        ctx.build(feat, model=True, model_name=model_name)
     except BuildError as e:
         ctx.log(str(e))
         ctx.violation({"kind": "build-failure", "detail": str(e)[-3000:],
